@@ -11,6 +11,7 @@ import (
 func init() { register("C02", propC02) }
 
 func propC02(c *Ctx) propInfo {
+	c.bocDescriptors() // d1/d2 are the first two bytes of every hash preimage
 	c.hashCursorIndependence()
 	c.hashSingleImplementation()
 	c.hashPreimage()
